@@ -61,15 +61,6 @@ func makeOptCase(k int, rng *rand.Rand) *optCase {
 	return oc
 }
 
-func freeAddr() (string, error) {
-	l, err := net.Listen("tcp", netx.IP()+":0") // this process's own loopback address: no other process can be given the port
-	if err != nil {
-		return "", err
-	}
-	defer l.Close()
-	return l.Addr().String(), nil
-}
-
 func (c *checker) serverOptions(k int) outcome {
 	r := c.r
 	rng := r.RandGlobal(fmt.Sprintf("opts%d", k))
@@ -95,11 +86,8 @@ func (c *checker) serverOptions(k int) outcome {
 		}
 	}
 	cfg.Sources = append(cfg.Sources, &srcPlan{Addr: serverHost, Mode: "neg"})
-	addr, err := freeAddr()
-	if err != nil {
-		r.Inconclusive("no-free-port")
-		return outcome{}
-	}
+	// an address of this process's own: two shards can never be given the same one
+	addr := netx.FreeTCP()
 	// the HTTP server and the filters come from configuration text, as they do for the real binary
 	var sb strings.Builder
 	fmt.Fprintf(&sb, "http-servers: [\"ingest\"]\nhttp:\n  ingest:\n    address: %q\n    enable-ingestion: true\n", addr)
